@@ -144,3 +144,24 @@ Proof. intros D S. accept_script i. Qed.
 Theorem old_validate_kPathCover_refuted_coverage_length :
   exists i, in_domain_kPathCover i = false /\ old_validate_kPathCover i = Accept.
 Proof. exists (set_covlen ex_dag (Some (3#2)%Q) true). vm_compute. auto. Qed.
+
+(* ---------------------------------------------------------------- k and solution_weights_superset *)
+(* kFlowDecomp looks at the caller's k before and independently of the given weights: whatever has_superset says, a k that is
+   not a positive int (0, negative, float, False) never gets through *)
+Theorem kFlowDecomp_k_checked_independently_of_given_weights i :
+  k_own_bad i = true -> validate_kFlowDecomp i <> Accept.
+Proof.
+  intros K H. unfold validate_kFlowDecomp in H. destruct (origin i) eqn:O; try discriminate;
+  unfold_all; norm_hyps; rw_in H; bsimp;
+  try (destruct (expand_cons (cons i)) as [o|] eqn:E; [apply expand_outcomes in E; subst o|]);
+  (destruct (check_cons (internal_cons i)) as [o|] eqn:E2; [apply check_cons_ve in E2; subst o|]);
+  bsimp; fin H; crunch.
+Qed.
+(* OPEN: kLeastAbsErrors / kMinPathError never look at the caller's k when the weights are given *)
+Theorem validate_kErrDAG_refuted_k_with_given_weights :
+  exists i, in_domain_kErrDAG i = false /\ k_bad i = true /\ validate_kErrDAG i = Accept.
+Proof. exists (set_superset (set_k ex_dag (KInt 0)) true). vm_compute. auto. Qed.
+(* OPEN: kFlowDecomp's own test lets a bool through, and with given weights the base class then validates len(weights) *)
+Theorem validate_kFlowDecomp_refuted_bool_k_with_given_weights :
+  exists i, in_domain_kFlowDecomp i = false /\ validate_kFlowDecomp i = Accept.
+Proof. exists (set_superset (set_k ex_dag (KBool true)) true). vm_compute. auto. Qed.
